@@ -10,6 +10,8 @@ Used by C01, C19 (and, with other alphabets, C06, C07, C14).
 from __future__ import annotations
 
 import itertools
+import os
+import sys
 from typing import Any, Callable, Dict, List, Optional, Sequence, Tuple
 
 from . import core, lock, mmx, proto as P
@@ -186,6 +188,12 @@ def _nonwritable_probes(cfg: HubConfig, env: lock.Env, hist: List[List], stats: 
                     e2.close()
 
 
+def _own(cfg: HubConfig, problems) -> bool:
+    """problems that belong to the property being checked (others are counted, not verdicts,
+    and do not stop the exploration: the reference state does not depend on them)"""
+    return any((not cfg.props) or p["prop"] in cfg.props for p in problems)
+
+
 def expand(args) -> Dict[str, Any]:
     """Worker: expand one frontier state. Returns children (history, key), problems, stats."""
     builder, hist = args
@@ -197,8 +205,8 @@ def expand(args) -> Dict[str, Any]:
     # 1. the state itself: probes (self-loops)
     env = _build(cfg, hist)
     try:
-        if env.problems:
-            # the history itself is already inconsistent (reported by the parent); do not expand
+        if _own(cfg, env.problems) or env.dead:
+            # the history itself already violates the property (reported by the parent); do not expand
             return {"children": [], "problems": [], "stats": stats}
         info = {"live": _live(env), "present": [s for s, c in env.w.clients.items() if not c.gone],
                 "spec": env.s}
@@ -221,10 +229,9 @@ def expand(args) -> Dict[str, Any]:
                 e2.apply(ev)
             e2.settle()
             stats["transitions"] = stats.get("transitions", 0) + 1
-            if e2.problems:
-                for p in e2.problems:
-                    problems.append((p, e2.hist[:]))
-            else:
+            for p in e2.problems:
+                problems.append((p, e2.hist[:]))
+            if not _own(cfg, e2.problems) and not e2.dead:
                 children.append((hist + [list(ev) for ev in evs] + [["settle"]], e2.key(), label))
         finally:
             e2.close()
@@ -244,10 +251,9 @@ def expand(args) -> Dict[str, Any]:
                     e2.round(order, [])
                     e2.settle()
                     stats["pair_transitions"] = stats.get("pair_transitions", 0) + 1
-                    if e2.problems:
-                        for p in e2.problems:
-                            problems.append((p, e2.hist[:]))
-                    else:
+                    for p in e2.problems:
+                        problems.append((p, e2.hist[:]))
+                    if not _own(cfg, e2.problems) and not e2.dead:
                         children.append((e2.hist[:], e2.key(), f"{l1}||{l2}/{order}"))
                 finally:
                     e2.close()
@@ -287,6 +293,8 @@ def bfs(builder, chk: core.Check, max_depth: int = 99) -> Dict[str, Any]:
                     nxt.append(hist)
         frontier = nxt
         depth += 1
+        if os.environ.get("VF_VERBOSE"):
+            print(f"  [{cfg.name}] depth={depth} states={len(seen)} frontier={len(frontier)} {totals}", file=sys.stderr, flush=True)
     if frontier:
         chk.capped(f"{cfg.name}: depth cap {max_depth} reached with {len(frontier)} unexpanded states")
     totals["states"] = len(seen)
